@@ -289,6 +289,14 @@ func (d *c22Differ) bytes(name string, w, g []byte) {
 	}
 	d.field = name
 	d.detail = fmt.Sprintf("want len %d got len %d", len(w), len(g))
+	if len(w) == len(g) {
+		for i := range w {
+			if w[i] != g[i] {
+				d.detail += fmt.Sprintf(", first difference at byte %d: want %#02x got %#02x", i, w[i], g[i])
+				break
+			}
+		}
+	}
 }
 
 var c22Tail = []byte{0xFF, 0x00, 0x7F}
